@@ -280,8 +280,10 @@ pub fn run_registration_of<const N: usize>(tkind: crate::drivers::TKind, pre: us
     }
     // (A device with two queues, whose maximum queue size is at least the requested size.)
     crate::drivers::MAX_QUEUE_SIZE.with(|m| m.set(64.max(N as u32)));
-    let w = crate::drivers::DWorld::new(crate::drivers::Kind::Console, tkind, crate::drivers::F_VERSION_1, crate::drivers::Kind::Console.default_config());
+    let mut w = crate::drivers::DWorld::new(crate::drivers::Kind::Console, tkind, crate::drivers::F_VERSION_1, crate::drivers::Kind::Console.default_config());
     crate::drivers::MAX_QUEUE_SIZE.with(|m| m.set(64));
+    // Every other case goes through the SomeTransport wrapper (it must answer like what it wraps).
+    w.wrap_some = pre % 2 == 1;
     let mut v = w.with_transport(VReg::<N> { bits: bits | ((pre as u8) << 4), qidx, twice });
     for (k, d) in hal::with(|h| std::mem::take(&mut h.faults)) {
         v.push((k, d));
